@@ -2,7 +2,7 @@
    operating system's; measured by the scenario harness over loopback). *)
 From Coq Require Import List.
 Import ListNotations.
-From GM Require Import Provider ProviderProofs Node NodeBase NodeEvents.
+From GM Require Import Provider ProviderProofs Node NodeBase NodeEvents Idle IdleProofs.
 
 (* client-type endpoints, any script of connection outcomes and channel ends: open and close
    events alternate, one pair per successful connection, each close carrying that channel's cause *)
@@ -40,3 +40,19 @@ Theorem C14_close_event_carries_cause : forall s c ch, reachable s -> nth_error 
   started_evs ch ++ pending_sr ch = EOpen :: flat_map evs_of_res (consumed ch) ++ cl /\ close_part ch cl.
 Proof. exact stream_grammar. Qed.
 Print Assumptions C14_close_event_carries_cause.
+
+(* idle expiry (times in ms, every Read arms a fresh deadline d after the moment it is called): a
+   channel that keeps receiving — no silence longer than d — is not closed before d after its LAST
+   reception; the first silence longer than d closes it d after the reception that preceded it;
+   never earlier than d after the pending Read was called.  (That the operating system fires the
+   deadline is measured by the scenarios within a bracket.) *)
+Theorem C14_idle_keeps_open : forall d arr t, steady d t arr -> idle_close d t arr = (last arr t + d)%N.
+Proof. exact idle_keeps_open. Qed.
+Print Assumptions C14_idle_keeps_open.
+Theorem C14_idle_closes_on_silence : forall d pre t a post, steady d t pre -> (last pre t + d < a)%N ->
+  idle_close d t (pre ++ a :: post) = (last pre t + d)%N.
+Proof. exact idle_closes_on_silence. Qed.
+Print Assumptions C14_idle_closes_on_silence.
+Theorem C14_idle_not_early : forall d arr t, (t + d <= idle_close d t arr)%N.
+Proof. exact idle_not_early. Qed.
+Print Assumptions C14_idle_not_early.
